@@ -181,7 +181,12 @@ func (propC10) Gen(r *simrt.Rand, idx int, tier string) any {
 		if c.Via == "set" {
 			c.Via = "setr"
 		}
-		if c.Via == "create" {
+		if c.Via == "create" && c.Kind == "cancel" {
+			// the caller's context is cancelled between two Write calls of a created file (FailAt is
+			// then the index of the Write before which it happens; len(Writes) = before Close)
+			c.Writes = splitWrites(r, c.L)
+			c.FailAt = r.Intn(len(c.Writes) + 1)
+		} else if c.Via == "create" {
 			c.Via = "setr"
 		}
 	case "cut":
@@ -191,7 +196,7 @@ func (propC10) Gen(r *simrt.Rand, idx int, tier string) any {
 		c.Key = ""
 		c.Via = "setr"
 	}
-	if c.Via == "create" {
+	if c.Via == "create" && c.Writes == nil {
 		c.Writes = splitWrites(r, c.L)
 	}
 	return c
@@ -311,7 +316,9 @@ func (propC10) Exec(x any, choices []int32) RunOut {
 			wantClass = "source"
 		case "cancel":
 			ctx, cancel = sctx.WithCancel(w.Ctx)
-			src = &failingReader{b: content, failAt: c.FailAt, fired: &fired, cancel: cancel, chunk: 1500}
+			if c.Via != "create" {
+				src = &failingReader{b: content, failAt: c.FailAt, fired: &fired, cancel: cancel, chunk: 1500}
+			}
 			wantClass = "cancel"
 		case "cut":
 			link.cutAfter(c.CutDir, c.FailAt, &fired)
@@ -333,12 +340,20 @@ func (propC10) Exec(x any, choices []int32) RunOut {
 			}
 			b := content
 			var cb callerBuf
-			for _, n := range c.Writes {
+			for i, n := range c.Writes {
+				if c.Kind == "cancel" && i == c.FailAt {
+					fired = true
+					cancel()
+				}
 				if _, err := cb.write(f, b[:n]); err != nil {
 					opErr = err
 					break
 				}
 				b = b[n:]
+			}
+			if c.Kind == "cancel" && c.FailAt >= len(c.Writes) && opErr == nil {
+				fired = true
+				cancel()
 			}
 			if cerr := f.Close(); opErr == nil {
 				opErr = cerr
